@@ -893,6 +893,7 @@ func runDraw(t *rapid.T, prop string) {
 		t.Fatalf("HARNESS: %v", err)
 	}
 	w.ops = ops
+	w.S.Note(hx.Fingerprint(cfg, ops))
 	if cfg.Locale != "" {
 		w.charset = charsetOfLocale(cfg.Locale)
 		w.T = vtFor(w)
@@ -987,7 +988,15 @@ func (w *dw) finalRepaint() {
 }
 
 func TestC01(t *testing.T) { rapid.Check(t, func(rt *rapid.T) { runDraw(rt, "C01") }) }
-func TestC13(t *testing.T) { rapid.Check(t, func(rt *rapid.T) { runDraw(rt, "C13") }) }
+func TestC13(t *testing.T) {
+	rapid.Check(t, func(rt *rapid.T) {
+		if rapid.IntRange(0, 3).Draw(rt, "c13part") == 0 {
+			runC13locker(rt)
+		} else {
+			runDraw(rt, "C13")
+		}
+	})
+}
 
 var _ = sort.Strings
 var _ = terminfo.ModifiersXTerm
